@@ -558,7 +558,7 @@ C09R(c, o) ==
                    : i \in DOMAIN evs } ]
 
 (* ------------------------------------------------------------------ C17 *)
-Renders(o) == Has(o, "renders") /\ o.renders.to_string.ok /\ o.renders.to_string_with_path.ok
+Renders(o) == Has(o, "renders") /\ o.renders.to_string.ok /\ o.renders.to_string_with_path.ok /\ o.renders.to_stderr.ok
 C17(c, o) ==
   LET m == MemoFor(c)
       k == "c17|" \o ToString([ c.opts EXCEPT !.validate = "" ])
